@@ -11,6 +11,7 @@
 // public getter that preserves creation order, so the dump goes through a derived class (`Probe`, plain C++
 // protected access; no `#define private public` trick is needed).
 #include <iostream>
+#include <sstream>
 #include <string>
 #include <vector>
 #include <map>
@@ -76,10 +77,27 @@ template <class V> static std::string uuidRefs(const V &v) { std::string s; for 
 template <class V> static std::string modeRefs(const V &v) { std::string s; for (auto &r : v) s += " " + S(r.get().shortname); return s; }
 
 int main(int argc, char **argv) {
-  if (argc != 2) { std::cerr << "usage: loader_harness <cache-dir>\n"; return 2; }
+  if (argc != 2 && argc != 5) { std::cerr << "usage: loader_harness <cache-dir> [--update <name,name,...> <custom path relative to cache-dir>]\n"; return 2; }
   spdlog::set_level(spdlog::level::off);
   CacheFetcher fetcher(argv[1]);
   Probe data(fetcher, false);
+  if (argc == 5) {
+    // the update calls of the /updateCache handler (transit_routing_http_server.cpp), same order, return values ignored
+    std::string names = argv[3], custom = argv[4];
+    std::vector<std::string> list; { std::istringstream is(names); std::string w; while (std::getline(is, w, ',')) list.push_back(w); }
+    for (auto &n : list) {
+      if (n == "data_sources" || n == "all") data.updateDataSources(custom);
+      if (n == "persons" || n == "all") data.updatePersons(custom);
+      if (n == "od_trips" || n == "all") data.updateOdTrips(custom);
+      if (n == "agencies" || n == "all") data.updateAgencies(custom);
+      if (n == "services" || n == "all") data.updateServices(custom);
+      if (n == "nodes" || n == "all") data.updateNodes(custom);
+      if (n == "lines" || n == "all") data.updateLines(custom);
+      if (n == "paths" || n == "all") data.updatePaths(custom);
+      if (n == "scenarios" || n == "all") data.updateScenarios(custom);
+      if (n == "schedules" || n == "all") data.updateSchedules(custom);
+    }
+  }
 
   std::ostream &o = std::cout;
   o << "loaded\n";
